@@ -34,12 +34,13 @@ def tasks(tier):
     if tier == "thorough":
         cfgs += [dict(n_grains=4, phase="olivine", fabric=fb, regime=rg) for fb in ("olivine_B", "olivine_D") for rg in ("min_viscosity", "matrix_dislocation")]
     t = [("t_fblock", {"cfg": c, "steps": 2}) for c in cfgs] + [("t_update_all", {})]
+    t += [("t_fblock", {"cfg": c, "steps": 1, "earlier": True}) for c in (cfgs[:2] if tier == "quick" else cfgs)]
     if tier == "thorough":
         t += [("t_fblock", {"cfg": c, "steps": s}) for c in cfgs[:4] for s in (1, 3)]
     return t
 
 
-def t_fblock(sess, cfg, steps):
+def t_fblock(sess, cfg, steps, earlier=False):
     mods = pydrex_modules()
     minerals = mods["minerals"]
     P, F, Rg = kernel.enums()
@@ -51,7 +52,7 @@ def t_fblock(sess, cfg, steps):
     plan = stubs.LsodaPlan(steps=steps, n_grains=N)
     Lf = uf_field("Lf", (3, 3))
     Xf = uf_field("Xf", (3,))
-    tag = f"F block[{cfg['fabric']}/{cfg['regime']}/N={N}]"
+    tag = f"F block[{cfg['fabric']}/{cfg['regime']}/N={N}{', after an earlier update of the same mineral' if earlier else ''}]"
 
     def fn():
         log.clear()
@@ -64,8 +65,14 @@ def t_fblock(sess, cfg, steps):
         params = mh.sym_params(N, phase_assemblage=(other, getattr(P, cfg["phase"])), phase_fractions=(1 - phi, phi))
         Fin = quat.symmat("F")
         t0, t1 = real("t0"), real("t1")
+        if earlier:
+            # the same mineral object has already been updated once, over another interval, in another flow, from another
+            # F: whatever that update leaves behind on the object (a remembered velocity gradient, strain-rate scale,
+            # "steady flow" flag ...) must not reach this one
+            Lg, Xg = uf_field("Lg", (3, 3)), uf_field("Xg", (3,))
+            m.update_orientations(params, quat.symmat("Fe"), lambda t, x: Lg(t, x), (real("te0"), real("te1"), lambda t: Xg(t, None)))
         Fout = m.update_orientations(params, Fin, lambda t, x: Lf(t, x), (t0, t1, lambda t: Xf(t, None)))
-        s = log[0]
+        s = log[-1]
         y = quat.symvec("yy", 10 * N + 9)
         tot = R(0)
         for i in range(9 + 9 * N, 9 + 10 * N):
